@@ -125,7 +125,8 @@ def task_affix(kind, affixes, is_global, ext, L):
         for i in range(N + 1):
             for j in range(i + 1, N + 1):
                 m = rp.M(P.root, i, j)
-                allw = R.AND(*[prob.inset(k, W) for k in range(i, j)])
+                def allw(a, b):
+                    return R.AND(*[prob.inset(k, W) for k in range(a, b)])
                 occ = []
                 for a in affixes:
                     if len(a) > j - i:
@@ -136,11 +137,18 @@ def task_affix(kind, affixes, is_global, ext, L):
                         ks = [i]
                     else:
                         ks = [j - len(a)]
-                    occ += [lit(a, k) for k in ks]
-                spec = R.AND(allw, R.OR(*occ))
-                if not ext:
-                    spec = R.AND(spec, R.NOT(prob.inset(i - 1, W)), R.NOT(prob.inset(j, W)))
-                conds[(i, j)] = R.NOT(R.IFF(m, spec))
+                    # word characters, the affix as literal text, word characters
+                    occ += [R.AND(allw(i, k), lit(a, k), allw(k + len(a), j)) for k in ks]
+                struct = R.OR(*occ)
+                if ext:
+                    conds[(i, j)] = R.NOT(R.IFF(m, struct))
+                    continue
+                wl, wi, wj1, wj = prob.inset(i - 1, W), prob.inset(i, W), prob.inset(j - 1, W), prob.inset(j, W)
+                spec_b = R.AND(struct, R.NOT(R.IFF(wl, wi)), R.NOT(R.IFF(wj1, wj)))      # word boundaries at both ends
+                spec_g = R.AND(struct, R.NOT(wl), R.NOT(wj))                            # not glued to a word character
+                # the two readings of "a standalone word" coincide whenever the span begins and ends with a word character
+                # (always, for word-character affixes); an affix with other characters at its edge leaves the rest open
+                conds[(i, j)] = R.AND(R.NOT(R.IFF(m, spec_b)), R.IFF(spec_b, spec_g))
         r, text, key, dt = e2util.solve_conds(prob, conds)
         solver_s += dt
         if r == "sat":
@@ -197,8 +205,7 @@ def run(tier):
     run.known.probe()
     common.import_pregex()
     import pregex.meta.essentials as me
-    run.functions = common.src_fingerprint([me.Numeral.__init__, me.Word.__init__, me.WordContains.__init__,
-                                            me.WordStartsWith.__init__, me.WordEndsWith.__init__, me.Word.__mro__[1].__init__])
+    run.functions = common.src_fingerprint(common.resolve([(me.Numeral, "__init__"), (me.Word, "__init__"), (me.WordContains, "__init__"), (me.WordStartsWith, "__init__"), (me.WordEndsWith, "__init__"), (me.Word.__mro__[1], "__init__")]))
     rnd = random.Random(common.SEED)
     tasks = [("task_validation", ())]
     if tier == "quick":
@@ -212,6 +219,8 @@ def run(tier):
         pool = ["a", "ab", "b", "ba", "a1", "_", "aba", "B", "bb", "1", "abc", "cab"]
         lists = [(x,) for x in pool] + [tuple(p) for p in itertools.permutations(pool[:7], 2)] + \
                 [tuple(rnd.sample(pool, 3)) for _ in range(30)]
+    # affixes are taken literally: one with a metacharacter can never occur inside a word, so nothing may match through it
+    lists += [("a.c",), ("a+",), ("a|b",), ("a?",), ("[ab]",), ("\\w",), ("a$",), ("^a",), ("a.c", "b"), ("b", "a*"), ("(a)",), ("a{2}",), ("a\\",)]
     for base in range(2, 17):
         for (a, b) in bounds:
             for ext in (False, True):
@@ -230,9 +239,9 @@ def run(tier):
     run.triage(REGIONS)
     run.bounds = {"numeral": "bases 2..16 x %d length-bound pairs x is_extensible, text length <= %d" % (len(bounds), LN),
                   "word": "length bounds with min>=1, is_global x is_extensible, text length <= %d" % LW,
-                  "affix": "%d affix lists (word-character strings of length 1-3) x 3 classes, text length <= %d" % (len(lists), LA),
+                  "affix": "%d affix lists (word-character strings of length 1-3, and 13 lists with regex metacharacters) x 3 classes, text length <= %d" % (len(lists), LA),
                   "characters": "all of Unicode minus Unicode-only \\d\\s\\w members"}
-    run.assumptions = ["affixes are word-character strings (literalness of metacharacter affixes is C01's obligation)",
+    run.assumptions = ["affix pool enumerated (word-character strings, plus strings with one metacharacter each)",
                        "non-extensible Numeral: spans glued to a word character must not match, others agree with the alphabet/length reference",
                        "parameter validation is decided on enumerated boundary values (symbolic version: C03/C04 harnesses)"]
     return run.finish(explanation="Relational SMT encoding of each concrete pattern over a symbolic text vs a z3 specification "
